@@ -1397,6 +1397,20 @@ def b_nc_remove(tier, rnd):
                     "x octaves {3, 4} by Note", "cases": cases}
 
 
+@battery("nc_contains")
+def b_nc_contains(tier, rnd):
+    from mingus.containers.note import Note
+    from mingus.containers.note_container import NoteContainer
+    sets = [[], ["C"], [["C", 3], ["C", 5]], ["C", "E", "G"], [["E", 2], ["C", 4], ["E", 4], ["E", 6]], ["B#", "Db", "C#"],
+            [["C", 4], ["B#", 3]], ["C", "E", "G", "B", "D"]]
+    cases = []
+    for st in sets:
+        for nm in ("C", "E", "B#", "Db", "C#", "F", "Cb", "Fbb", "D##"):
+            for o in (2, 3, 4, 5, 6):
+                cases.append((NoteContainer(list(st)), Note(nm, o)))
+    return {"rule": "8 containers (0..5 notes, octave doublings, enharmonic twins) x 9 spellings x octaves 2..6", "cases": cases}
+
+
 @battery("nc_interval_note")
 def b_nc_interval_note(tier, rnd):
     from mingus.containers.note import Note
